@@ -1,18 +1,23 @@
 SPECIFICATION SubSpec
 CONSTANTS
   Keys = {"a", "b"}
-  NonPub = {"join"}
+  NonPub = {"join", "leave"}
   Sizes = {0, 2, 3}
   Delays = {TRUE, FALSE}
   Lates = {TRUE, FALSE}
   Threads = {1}
-  MaxAdds = 4
+  MaxAdds = 3
   MaxEnds = 100
   AtomicAdd = TRUE
+  SplitGet = FALSE
+  RecheckOnStore = TRUE
   StaleTimers = FALSE
   EarlyDel = TRUE
-  MaxGen = 3
+  MaxGen = 2
+  BatchedKinds = {"pub", "join", "leave", "other"}
+  SubSplit = FALSE
+  CfgSwitch = "none"
 VIEW SubView
-INVARIANTS TypeOK LatUnique PendingAgree TimerSane NoLeftover
+INVARIANTS TypeOK LatUnique PendingAgree TimerSane NoLeftover WireOrdered
 PROPERTIES GenBracket OrderPreserved LatestCoalesced EndDiscards SizeExact
 CHECK_DEADLOCK FALSE
